@@ -935,6 +935,12 @@ void bn_rec_sac(int8_t *b, size_t *len, const bn_t *k, const bn_t u, size_t c,
 			}
 		}
 
+		/* The recoding may have become longer than the bound checked above. */
+		if (*len <= l) {
+			*len = 0;
+			RLC_THROW(ERR_NO_BUFFER);
+		}
+
 		memset(b, 0, *len);
 
 		b[l - 1] = 0;
